@@ -1,6 +1,7 @@
 package main
 
 import (
+	"encoding/base64"
 	"encoding/json"
 	"fmt"
 	"os"
@@ -314,6 +315,27 @@ func runC16(h *H) {
 	for _, t := range []string{"", "&", "&-", "&&", "&AGE", "&AGE-", "&AGEAYg-", "&AOk-", "&AOk-&AOk-", "&AOk-a&AOk-", "&AOk-&-", "&-&AOk-", "&AOk=-", "&AOk", "&AO-", "&A-", "&AA-", "&AAA-", "&2D3eAA-", "&2D0-", "&3gDYPQ-", "&2D3YPQ-", "&,,8-", "&AOk\r\n-", "&AO\nk-", "a\x80", "a\x1f", "\x7f", "&AOkA-", "&AOkAAA-", "&AOl-", "&AOm-", "&AOn-", "&AGE=-", "&AOk--", "-", "a-b", "&AAAAAA-", "&ACYAJg-", "&ImIAJg-"} {
 		decOne(t, "corpus")
 	}
+	// every sequence of up to 3 UTF-16 units over {BMP, high and low surrogate bounds}, as one shift
+	units := []uint16{0x0041, 0x00e9, 0xd800, 0xdbff, 0xdc00, 0xdfff, 0xffff}
+	b64 := base64.NewEncoding("ABCDEFGHIJKLMNOPQRSTUVWXYZabcdefghijklmnopqrstuvwxyz0123456789+,").WithPadding(base64.NoPadding)
+	var urec func(p []uint16)
+	urec = func(p []uint16) {
+		if len(p) > 0 {
+			raw := make([]byte, 0, 2*len(p))
+			for _, u := range p {
+				raw = append(raw, byte(u>>8), byte(u))
+			}
+			decOne("&"+b64.EncodeToString(raw)+"-", "utf16-units")
+			decOne("x&"+b64.EncodeToString(raw)+"-y", "utf16-units")
+		}
+		if len(p) == 3 {
+			return
+		}
+		for _, u := range units {
+			urec(append(append([]uint16(nil), p...), u))
+		}
+	}
+	urec(nil)
 	dalpha := []byte{'&', '-', 'A', 'k', 'l', '=', ',', '+', 'a', 0x1f, 0x80, '\r'}
 	dlen := h.Pick(4, 5)
 	var drec func(p []byte)
